@@ -580,5 +580,3 @@ func (c *Check) isSignerLike(t *Term, signer string) (bool, string) {
 	}
 	return false, "not traceable to a signer or a stored owner"
 }
-
-func thoroughRun(c *Check) {}
